@@ -146,9 +146,10 @@ PROPS['C12'] = {
     'level': 'fault_enumeration',
     'technique': 'exhaustive single and pairwise constraint-violation injection into valid baseline jobs on the real library (job API and burst positions), buffer/descriptor snapshot oracle',
     'level_text': 'For every algorithm row, direction and variant every single-field violation of the constraint catalogue (19 mutation kinds with their value variants: NULL pointers, zero / over-limit / misaligned lengths, IV / tag / key lengths off the permitted set, invalid direction, chain order, cipher mode, hash algorithm, NULL hash-key pointers, AAD) and every pair of violations on different fields is injected into a valid baseline job, through the job API and at positions 0/1/2 of a 3-job asynchronous burst. The job must come back INVALID_ARGS with an error code naming the violated constraint, every caller buffer and the descriptor byte-identical, and the valid baseline submitted afterwards must give its known result; boundary values that are valid (min, max, every permitted IV length) must be accepted and correct.',
-    'level_note': 'Error-code expectations follow the names of the IMB_ERR_* codes; direct-API functions (75 entry points, every pointer argument NULL in turn, and a NULL element inside every pointer-array argument) are exercised by the second driver props/c09d.c: no fault, an error code must be set. AEAD pairing violations are covered by the C06 product.',
+    'level_note': 'Error-code expectations follow the names of the IMB_ERR_* codes; direct-API functions (75 entry points, every pointer argument NULL in turn, and a NULL element inside every pointer-array argument) are exercised by the second driver props/c09d.c: no fault, an error code must be set. AEAD pairing violations are covered by the C06 product. Scatter-gather jobs (AES-GCM-SGL, CHACHA20-POLY1305-SGL; INIT / UPDATE / COMPLETE on a prepared context and the single-job IMB_SGL_ALL form over a segment array) have their own driver props/c12s.c: 18 violation kinds per (suite, direction, sgl_state, variant) through the job API and the asynchronous burst API, the SGL context and the segment array included in the untouched-oracle.',
     'drivers': [{'name': 'c12', 'src': ['props/c12.c'] + ALG, 'cfgs': ['std'], 'args': ''},
-                {'name': 'c09d', 'src': ['props/c09d.c'] + ALG, 'cfgs': ['std'], 'args': 'C12'}],
+                {'name': 'c09d', 'src': ['props/c09d.c'] + ALG, 'cfgs': ['std'], 'args': 'C12'},
+                {'name': 'c12s', 'src': ['props/c12s.c'] + ALG, 'cfgs': ['std'], 'args': ''}],
     'deadline': {'quick': 900, 'thorough': 3000},
     'assumptions': ['constraint catalogue restated from intel-ipsec-mb.h comments and the IMB_ERR_* names'],
 }
